@@ -72,7 +72,7 @@ def write_evidence(ctx, res, wall):
         "known_findings_hit": res.known_hits, "inconclusive": res.inconclusive[:20],
         "violations_detail": [v.get("what") for v in res.violations][:20],
     }
-    cov.update(res.extra)
+    cov.update({k: v for k, v in res.extra.items() if not k.startswith("_")})
     ev = {"property_id": ctx.pid, "tier": ctx.tier, "seed": ctx.seed, "level": "model_checking",
           "coverage": cov, "assumptions": res.assumptions, "wall_s": round(wall, 2),
           "violations": len(res.violations)}
